@@ -87,7 +87,7 @@ class Report:
         for r in self.rules:
             n = len(r.instances)
             counts[r.id] = n
-            if n < r.floor:
+            if n < r.floor and all(i["ok"] for i in r.instances):   # a vacuous pass, not a reported failure
                 raise AnalysisBroken(
                     "rule %s found %d instances, floor is %d (anchors moved? "
                     "re-read and re-freeze the rule)" % (r.id, n, r.floor))
